@@ -258,3 +258,107 @@ Definition P_each_file_init (i : input) (io : init_obs) : bool :=
 
 Definition P_files (i : input) (o : obs) : bool :=
   P_each_file i o && match o_init o with None => true | Some io => P_each_file_init i io end.
+
+(* ==================================================================== *)
+(* ---- the KIND of an entry: "mode bits" include the file type (seeded change C20-7) ---- *)
+(* ==================================================================== *)
+(* "the files under the hooks directory that carry an execute bit": every entry that is not a
+   directory, as the entry itself is (a symbolic link is an entry of its own; its mode is
+   lrwxrwxrwx whatever it points to, and it is not a sub-directory even when it points to one).
+   The entries of the on-disk tree, with their kind: *)
+Inductive xkind :=
+| KRegular (mode : N)
+| KSymlink (t : target)
+| KFifo (mode : N).
+
+Definition xentry := (list bytes * bytes * xkind)%type.
+Fixpoint xfiles (anc : list bytes) (x : xtree) : list xentry :=
+  match x with
+  | XFile n m => [(anc, n, KRegular m)]
+  | XDir n cs => flat_map (xfiles (anc ++ [n])) cs
+  | XLink n t => [(anc, n, KSymlink t)]
+  | XFifo n m => [(anc, n, KFifo m)]
+  end.
+Definition all_xfiles (xs : list xtree) : list xentry := flat_map (xfiles []) xs.
+
+Definition xentry_path (e : xentry) : bytes := let '(anc, n, _) := e in join (anc ++ [n]).
+
+(* the permission bits the entry carries: a symbolic link carries rwxrwxrwx *)
+Definition perm_bits (k : xkind) : N :=
+  match k with KRegular m => m | KSymlink _ => 511 | KFifo m => m end.
+
+(* the conditions of the statement, for an entry of any kind *)
+Definition xentry_is_hook (e : xentry) : bool :=
+  let '(anc, n, k) := e in
+  has_exec_bit (perm_bits k) && negb (hidden n) && negb (excluded_ending n)
+  && forallb (fun d => negb (named_lib d) && negb (hidden d)) anc.
+
+(* what running the entry with --config does (the operating system's part: execve follows links,
+   refuses directories, FIFOs and files without an execute bit, finds nothing behind a dangling
+   link): 0 = prints a valid configuration, 1 = the run fails, 2 = prints an invalid configuration *)
+Definition exec_code (t : target) : N :=
+  match t with
+  | TFile m c => if has_exec_bit m then c else 1
+  | TDir | TDangling | TFifo => 1
+  end.
+
+Record xinput := mkXInput {
+  x_parent : bytes;
+  x_root : bytes;
+  x_children : list xtree;
+  x_beh : list (bytes * N);         (* regular files: relative path -> 1 | 2, absent = valid config *)
+  x_with_init : bool
+}.
+
+Definition script_code (tbl : list (bytes * N)) (name : bytes) : N :=
+  match find (fun kv => bytes_eqb (fst kv) name) tbl with
+  | Some kv => snd kv
+  | None => 0
+  end.
+
+Definition run_code (xi : xinput) (e : xentry) : N :=
+  match snd e with
+  | KRegular _ => script_code (x_beh xi) (xentry_path e)
+  | KSymlink t => exec_code t
+  | KFifo _ => 1
+  end.
+Definition bad_code (c : N) : bool := N.eqb c 1 || N.eqb c 2.
+
+(* the same input as the walk and the --config round see it: entries with their Lstat mode, and
+   for every entry what its --config run does *)
+Definition to_input (xi : xinput) : input :=
+  mkInput (x_parent xi) (x_root xi) (map lstat (x_children xi))
+          (map (fun e => (xentry_path e, run_code xi e)) (all_xfiles (x_children xi)))
+          (x_with_init xi).
+
+(* every entry, whatever its kind: discovered exactly once iff it meets the conditions *)
+Definition PX_each (xi : xinput) (o : obs) : bool :=
+  match strip_all (wd_of (to_input xi)) (o_paths o) with
+  | None => false
+  | Some rels =>
+      forallb (fun e => Nat.eqb (count (xentry_path e) rels) (if xentry_is_hook e then 1 else 0))
+              (all_xfiles (x_children xi))
+  end.
+
+(* asked for --config exactly once (at most once when Init fails), never when it is not a hook;
+   and a hook whose --config run fails or prints an invalid configuration - be it a link to
+   something that cannot be run - makes initialization fail *)
+Definition PX_each_init (xi : xinput) (io : init_obs) : bool :=
+  match strip_all (wd_of (to_input xi)) (io_asked io) with
+  | None => false
+  | Some asked =>
+      forallb (fun e => let k := count (xentry_path e) asked in
+                        if xentry_is_hook e
+                        then (if N.eqb (io_status io) 0 then Nat.eqb k 1 && negb (bad_code (run_code xi e))
+                              else Nat.leb k 1)
+                        else Nat.eqb k 0)
+              (all_xfiles (x_children xi))
+  end.
+
+Definition PX_kinds (xi : xinput) (o : obs) : bool :=
+  PX_each xi o && match o_init o with None => true | Some io => PX_each_init xi io end.
+
+(* the whole predicate on an on-disk tree: P and P_files on what the walk sees (order, the failing
+   hook is named, the index) and the clauses by kind *)
+Definition PX (xi : xinput) (o : obs) : bool :=
+  P (to_input xi) o && P_files (to_input xi) o && PX_kinds xi o.
